@@ -45,6 +45,12 @@ type RecordBox struct {
 	ReadSeg func() int
 	Exact   bool
 	pendErr error
+	// EOFWithData (Exact mode only): when the transport ends while a segment is being collected, return the
+	// collected bytes together with the error in the same call (n > 0, io.EOF), as io.Reader allows, instead of
+	// (n, nil) followed by (0, io.EOF).
+	EOFWithData bool
+	// ReadHook, if set, replaces the transport read side altogether (see ScriptReader).
+	ReadHook func(p []byte) (int, error)
 }
 
 func NewRecordBox(c net.Conn) *RecordBox { return &RecordBox{Conn: c} }
@@ -113,6 +119,9 @@ func (b *RecordBox) CloseTransportWrite() {
 }
 
 func (b *RecordBox) Read(p []byte) (int, error) {
+	if b.ReadHook != nil {
+		return b.ReadHook(p)
+	}
 	if b.ReadSeg == nil {
 		return b.Conn.Read(p)
 	}
@@ -133,6 +142,9 @@ func (b *RecordBox) Read(p []byte) (int, error) {
 		m, err := b.Conn.Read(p[n:k])
 		n += m
 		if err != nil {
+			if n > 0 && b.EOFWithData {
+				return n, err // later reads reach the transport again, which keeps reporting its end
+			}
 			if n > 0 {
 				b.pendErr = err
 				return n, nil
